@@ -35,6 +35,7 @@ import random as _pyrandom
 import time as _time
 
 from harness import common
+from harness.planners import _worlds
 
 NAME = "z3"
 PROPS = {"C10", "C11"}
@@ -153,7 +154,7 @@ def build_world(spec: dict) -> World:
                     R["ExecutionStrategy"](
                         resources=Resources(resource_vector={Resource(name=n, _id="any"): q for n, q in s["req"]}),
                         batch_size=s.get("batch", 1),
-                        runtime=US(s["runtime"]),
+                        runtime=_worlds.et(R, s["runtime"], s.get("rt_ms")),  # mixed-unit flavour: some runtimes in ms
                     )
                     for s in t["strats"]
                 ]
@@ -163,14 +164,12 @@ def build_world(spec: dict) -> World:
                 name=t["name"],
                 task_graph=g["name"],
                 job=R["Job"](name=t["name"], profile=profile),
-                deadline=US(t["deadline"]),
+                deadline=_worlds.et(R, t["deadline"], t.get("dl_ms")),
                 timestamp=t.get("ts", 0),
             )
             tasks.append(task)
-        children = {task: [] for task in tasks}
-        for a, b in g["edges"]:
-            children[tasks[a]].append(tasks[b])
-        graphs[g["name"]] = R["TaskGraph"](name=g["name"], tasks=children)
+        # node insertion order of the real graph = declaration order g["decl"] (default: index order)
+        graphs[g["name"]] = R["TaskGraph"](name=g["name"], tasks=_worlds.children_mapping(g, tasks))
         for t, task in zip(g["tasks"], tasks):
             w.tasks[task.unique_name] = task
             w.task_list.append((t, task))
@@ -179,9 +178,9 @@ def build_world(spec: dict) -> World:
         st = t["state"]
         if st == "VIRTUAL":
             if t.get("release") is not None:
-                task._release_time = US(t["release"])  # estimated release of a not yet released task
+                task._release_time = _worlds.et(R, t["release"], t.get("rel_ms"))  # estimated release of a not yet released task
             continue
-        task.release(US(t["release"]))
+        task.release(_worlds.et(R, t["release"], t.get("rel_ms")))
         if st == "RELEASED":
             continue
         prev = t["prev"]
@@ -219,6 +218,10 @@ def build_world(spec: dict) -> World:
         release_taskgraphs=f["release_taskgraphs"],
         goal="max_slack",
     )
+    if spec.get("warmup"):
+        # warm-scheduler flavour: the same scheduler object has already been invoked once, on an unrelated world
+        with contextlib.redirect_stdout(io.StringIO()):
+            _worlds.run_warmup(R, w.scheduler, spec["warmup"])
     return w
 
 
@@ -731,8 +734,16 @@ def oracle_c11(w: World, rec: dict) -> list[str]:
             elif st == "SCHEDULED":
                 cp = par.current_placement
                 if _t(p.placement_time) < _t(cp.placement_time) + _t(par.remaining_time):
-                    bad.append("child starts before the expected finish of a SCHEDULED parent")
+                    bad.append("child starts before the expected finish of a SCHEDULED parent" + _RETRACTING * bool(w.spec["flags"]["retract"]))
     return sorted(set(bad))
+
+
+# In retracting mode the frontier (`TaskGraph.get_schedulable_tasks`) hands a child to the planner only
+# together with its SCHEDULED parents (the child's estimate is the parent's plus its own runtime, so it can
+# lie inside the lookahead only if the parent's does): a child placed before the finish of a SCHEDULED parent
+# that was left out is then not the Z3 encoding's blind spot for tasks outside the call (C11-Z3-1) but a
+# frontier that offered the child alone.
+_RETRACTING = " that the retracting frontier did not re-offer together with the child"
 
 
 # ---- C11: adversarial query on the captured real assertions ----------------
@@ -771,7 +782,8 @@ def adversarial_precedence(w: World, rec: dict) -> list[str]:
                     qs.append((pc, f"{c.unique_name} placed with an unconstrained start", "child starts before parent start + runtime"))
             elif par.state.name in ("RUNNING", "SCHEDULED") and sc is not None:
                 fin = (w.now if par.state.name == "RUNNING" else _t(par.current_placement.placement_time)) + _t(par.remaining_time)
-                qs.append((z3.And(pc, sc < fin), f"{c.unique_name} starts before {par.state.name} parent {par.unique_name} finishes at {fin}", f"child starts before the expected finish of a {par.state.name} parent"))
+                retr = _RETRACTING * bool(par.state.name == "SCHEDULED" and w.spec["flags"]["retract"])
+                qs.append((z3.And(pc, sc < fin), f"{c.unique_name} starts before {par.state.name} parent {par.unique_name} finishes at {fin}", f"child starts before the expected finish of a {par.state.name} parent{retr}"))
             for q, what, cls in qs:
                 s.push()
                 s.add(q)
@@ -1134,7 +1146,9 @@ def run_case(spec: dict):
 
 
 def canonical_case(spec: dict) -> dict:
-    return {k: spec[k] for k in ("now", "pools", "graphs", "flags")}
+    c = {k: spec[k] for k in ("now", "pools", "graphs", "flags")}
+    c.update({k: spec[k] for k in ("scale", "warmup") if spec.get(k)})  # flavours (harness/planners/_worlds.py)
+    return c
 
 
 def compare_case(w, rec, reply) -> list[str]:
@@ -1181,15 +1195,96 @@ def counts_for(prop: str, tier: str) -> int:
 KIND = {"C10": "mix", "C11": "dag"}
 
 
+def gen_chain_b(rng) -> dict:
+    """Chain-B world (see `_worlds.gen_chain_b`): retracting mode, RUNNING X -> SCHEDULED B -> VIRTUAL C declared in
+    a non-topological order, `runtime(B) <= lookahead < remaining(X)`: nothing of the chain is schedulable; in
+    the control worlds (lookahead 30) everything is re-offered."""
+    b = _worlds.gen_chain_b(rng, now_choices=(0, 3, 7), extra_graph=True)
+    flags = {
+        "enforce_deadlines": rng.random() < 0.6,
+        "retract": True,
+        "release_taskgraphs": rng.random() < 0.15,
+        "lookahead": b["lookahead"],
+    }
+    return {"now": b["now"], "pools": b["pools"], "graphs": b["graphs"], "flags": flags,
+            "uuid_seed": rng.randint(0, 10**9), "flavour": "chain_b" + ("_control" if b["control"] else "")}
+
+
+def mixed_corpus() -> list[dict]:
+    """Hand-written mixed-unit world (1000x scale): the parent's slow strategy is written in ms next to a fast
+    one in us (raw integers 5 < 2000); its duration in the encoding is `Task.remaining_time` = the slowest
+    strategy's runtime; the child is offered by lookahead."""
+    def st(rt, cpu, ms=False):
+        d = {"batch": 1, "runtime": rt, "req": [["CPU", cpu]]}
+        if ms:
+            d["rt_ms"] = True
+        return d
+
+    flags = {"enforce_deadlines": True, "retract": False, "release_taskgraphs": False, "lookahead": 20000}
+    return [
+        {
+            "now": 3000,
+            "scale": 1000,
+            "pools": [{"name": "P0", "workers": [{"name": "W0", "res": [["CPU", 2]]}]}],
+            "graphs": [
+                {
+                    "name": "G0",
+                    "tasks": [
+                        {"name": "A", "ts": 0, "state": "RELEASED", "strats": [st(2000, 2), st(5000, 1, ms=True)], "deadline": 40000, "dl_ms": True, "release": 2000, "rel_ms": True},
+                        {"name": "B", "ts": 0, "state": "VIRTUAL", "strats": [st(3000, 1)], "deadline": 40000, "release": None},
+                    ],
+                    "edges": [[0, 1]],
+                    "decl": [1, 0],
+                }
+            ],
+            "flags": dict(flags),
+            "uuid_seed": 21,
+        }
+    ]
+
+
+P_DECL, P_MIXED, P_WARM = 0.4, 0.25, 0.15
+
+
+def _count_flavours(chk, name, spec):
+    if spec.get("scale"):
+        chk.count(f"{name}:flavour=1000x-scale" + (",mixed-units-in-one-profile" if _worlds.has_mixed_profile(spec) else ""))
+    if any(g.get("decl") for g in spec["graphs"]):
+        chk.count(f"{name}:flavour=declaration-order" + ("" if all(_worlds.is_topological_decl(g) for g in spec["graphs"]) else ",non-topological"))
+    if spec.get("flavour"):
+        chk.count(f"{name}:flavour={spec['flavour']}")
+    if spec.get("warmup"):
+        chk.count(f"{name}:flavour=warm-scheduler")
+
+
 def gen_specs(prop: str, rng, tier: str, widened=False) -> list[dict]:
     n = counts_for(prop, tier)
     if widened:
         n *= 2
     r = rng.sub(f"z3/{prop}/{'w' if widened else 'n'}")
+    fr = rng.sub(f"z3/{prop}/{'w' if widened else 'n'}/flavours")  # own stream: the base worlds stay what they were
     specs = list(corpus(KIND[prop]))
+    n_corpus = len(specs)
     kinds = [KIND[prop]] if not widened else ["mix", "dag"]
     while len(specs) < n:
         specs.append(gen_world(r, r.choice(kinds)))
+    for spec in specs[n_corpus:]:
+        # flavours (harness/planners/_worlds.py): non-topological declaration order; 1000x scale with mixed units
+        if fr.random() < P_DECL:
+            _worlds.shuffle_decl(spec, fr)
+        if fr.random() < P_MIXED:
+            _worlds.scale_mixed(spec, fr)
+    wr = rng.sub(f"z3/{prop}/{'w' if widened else 'n'}/warmup")
+    for spec in specs[n_corpus:]:
+        if wr.random() < P_WARM:
+            _worlds.gen_warmup(spec, wr)
+    specs[n_corpus:n_corpus] = mixed_corpus()
+    # chain-B worlds in addition (10 %)
+    for _ in range(max(4, n // 10)):
+        spec = gen_chain_b(fr)
+        if fr.random() < 0.3:
+            _worlds.scale_mixed(spec, fr)
+        specs.append(spec)
     return specs
 
 
@@ -1250,6 +1345,7 @@ def run(prop: str, chk, rng, tier: str) -> list[str]:
         chk.count(f"z3:offered={min(n_off, 5)}")
         chk.count(f"z3:placed={min(placed, 5)}")
         chk.count(f"z3:enforce={f['enforce_deadlines']},retract={f['retract']},release_tg={f['release_taskgraphs']}")
+        _count_flavours(chk, "z3", spec)
         states = {t["state"] for g in spec["graphs"] for t in g["tasks"]}
         for s in sorted(states):
             chk.count(f"z3:world-has-{s}")
@@ -1264,9 +1360,11 @@ def run(prop: str, chk, rng, tier: str) -> list[str]:
         chk.traces_validated += 1
         for x in compare_case(w, rec, reply):
             disagreements.append(f"[z3 case {wi}] {x} :: spec={json.dumps(canonical_case(spec))[:600]}")
-        if not reachable_state(w, rec):
+        if not reachable_state(w, rec) and prop != "C11":
             chk.count("z3:unreachable-retract-state (oracles skipped)")
             continue
+        # C11 is judged in every state: precedence between a placed child and its parents does not depend on
+        # whether the SCHEDULED tasks the retracting frontier left out could have been left out in a run
         _report(prop, chk, spec, w, rec, reply)
     chk.extra.setdefault("planner_wall_s", {})[f"z3/{prop}"] = round(_time.time() - t0, 1)
     return disagreements
@@ -1281,7 +1379,7 @@ def search(prop: str, chk, rng, tier: str) -> None:
             w, rec, case = run_case(spec)
         except Exception:
             continue
-        if not reachable_state(w, rec):
+        if not reachable_state(w, rec) and prop != "C11":
             continue
         _report(prop, chk, spec, w, rec, case, found_input=True)
 
